@@ -600,6 +600,10 @@ class DestHandler:
         self._handle_eof_without_previous_metadata(eof_pdu)
 
     def _handle_eof_without_previous_metadata(self, eof_pdu: EofPdu) -> None:
+        if self._params.fp.progress > eof_pdu.file_size:
+            # CFDP 4.6.1.2.9: Declare file size error if progress exceeds file size
+            if self._declare_fault(ConditionCode.FILE_SIZE_ERROR) != FaultHandlerCode.IGNORE_ERROR:
+                return
         self._params.fp.progress = eof_pdu.file_size
         self._params.fp.file_size_eof = eof_pdu.file_size
         self._params.fp.crc32 = eof_pdu.file_checksum
@@ -766,7 +770,16 @@ class DestHandler:
         if packet_holder.pdu is None:
             return
         if packet_holder.pdu_type == PduType.FILE_DATA:
-            self._handle_fd_without_previous_metadata(True, packet_holder.to_file_data_pdu())
+            fd_pdu = packet_holder.to_file_data_pdu()
+            if (
+                self._params.fp.file_size_eof is not None
+                and fd_pdu.offset + len(fd_pdu.file_data) > self._params.fp.file_size_eof
+            ):
+                # CFDP 4.6.1.2.7 c: If the sum of the FD PDU offset and segment size exceeds
+                # the file size indicated in the EOF PDU, declare a file size error.
+                if self._declare_fault(ConditionCode.FILE_SIZE_ERROR) != FaultHandlerCode.IGNORE_ERROR:
+                    return
+            self._handle_fd_without_previous_metadata(True, fd_pdu)
         elif packet_holder.pdu_directive_type == DirectiveType.METADATA_PDU:
             self._handle_metadata_packet(packet_holder.to_metadata_pdu())
             if self._params.acked_params.deferred_lost_segment_detection_active:
